@@ -20,7 +20,7 @@ ASSUMPTIONS = [
     "composition level: a witness found for a changed order is a schedule of the MODEL built from the changed source; it is not replayed on real threads",
 ]
 
-PROGS = {"C12": ("bb.",), "C11": ("rr.",)}
+PROGS = {"C12": ("bb.",), "C11": ("rr.",), "C01": ("ps.",)}
 
 
 def compose_part(ctx):
@@ -50,9 +50,9 @@ def compose_part(ctx):
         if " FAIL " in l:
             head, obs = l.split(" => ", 1)
             prog, sched = head.split(" FAIL ")
-            prog = prog[len(name) + 1:].replace("Iox2.Compose.BB.WOp.", "").replace("Iox2.Compose.RR.COp.", "")
+            prog = prog[len(name) + 1:].replace("Iox2.Compose.BB.WOp.", "").replace("Iox2.Compose.RR.COp.", "").replace("Iox2.Compose.PS.POp.", "")
             fn = {"bb.update_with_copy": "entryValueUninit_updateWithCopy", "bb.assume_init_and_update": "entryValueUninit_assumeInitAndUpdate",
-                  "bb.internal_update": "internalEntryValueUninit_update", "rr.send_request": "client_sendRequest"}[name]
+                  "bb.internal_update": "internalEntryValueUninit_update", "rr.send_request": "client_sendRequest", "ps.send_sample": "publisher_sendSample"}[name]
             ctx.violation("compose:" + name, f"with the call order of the current source ({fn} = {summary['orders'].get(fn)}) the composition model violates the property: "
                           f"schedule [{sched}] — {obs}",
                           dict(engine="compose", program=prog, schedule=sched.split(" "), observation=obs, source_order=summary["orders"],
